@@ -317,6 +317,11 @@ def format_file(filename: Path, preserve: Collection[str] = frozenset(), safe: b
     with open(filename, "r", encoding="utf-8") as stream:
         initial_content = stream.read()
 
+    # A byte order mark at the start of the file is not part of the code: with it, ast.parse rejects the text
+    # and the file would count as "already invalid". It is kept in front of whatever is written.
+    byte_order_mark = "\ufeff" if initial_content.startswith("\ufeff") else ""
+    initial_content = initial_content[len(byte_order_mark) :]
+
     keep_imports = filename.name == "__init__.py"
     source = format_code(initial_content, preserve=preserve, safe=safe, keep_imports=keep_imports)
 
@@ -324,7 +329,7 @@ def format_file(filename: Path, preserve: Collection[str] = frozenset(), safe: b
         core.is_valid_python(source) or not core.is_valid_python(initial_content)
     ):
         with open(filename, "w", encoding="utf-8") as stream:
-            stream.write(source)
+            stream.write(byte_order_mark + source)
 
         return True
 
